@@ -122,7 +122,9 @@ func initListener(network, addr string, options *Options) (ln *listener, err err
 	}
 
 	ln = &listener{network: network, address: addr, sockOptInts: sockOptInts, sockOptStrs: sockOptStrs}
-	err = ln.open()
+	if err = ln.open(); err != nil {
+		return
+	}
 
 	if options.TCPKeepAlive > 0 && ln.network == "tcp" &&
 		(runtime.GOOS == "linux" || runtime.GOOS == "freebsd" || runtime.GOOS == "dragonfly") {
